@@ -1,6 +1,7 @@
 """Instruction semantics (mixin of FuncRun)."""
 from . import terms as T
 from .state import State, fresh_like, same_value
+from .cparse import ParseError
 from .values import SliceV, StructV, TupleV, PtrV, ClosureV, Unsupported, is_term
 
 
@@ -215,6 +216,8 @@ class InstrMixin:
             op = ins['op']
             if ins.get('pos') and ctx['spec'] is not None and ctx['spec'].asserts_at and not self.mute:
                 self.check_asserts_at(ctx, ins, st)
+            if ctx['spec'] is not None and getattr(ctx['spec'], 'sets_at', None):
+                self.do_sets_at(ctx, ins, st, blk)
             try:
                 if op == 'If':
                     c = self.val(ctx, ins['cond'])
@@ -264,6 +267,37 @@ class InstrMixin:
                 self.oblige('assert', t, st, c.text, ins['pos'], clause=c, fnname=self.cur_name(ctx))
             except Unsupported as e:
                 self.elab_fail('assert-at %r: %s' % (anchor, e), c)
+
+    def do_sets_at(self, ctx, ins, st, blk):
+        """ghost assignments anchored at a source line: `set-at` runs before the first instruction of that line in the
+        current block, `set-after` after its last one (i.e. before the instruction that follows it)."""
+        for anchor, g, idx, val, c in ctx['spec'].sets_at:
+            after = anchor.startswith('\x00after\x00')
+            atext = ''.join(anchor.replace('\x00after\x00', '').split())
+            hits = []
+            for k2, i2 in enumerate(blk['instrs']):
+                l2 = self.prog.srcline(i2['pos']) if i2.get('pos') else None
+                if l2 and atext in ''.join(l2.split()):
+                    hits.append(k2)
+            if not hits:
+                continue
+            at = hits[-1] + 1 if after else hits[0]
+            if at >= len(blk['instrs']) or blk['instrs'][at] is not ins:
+                continue
+            if g not in self.ghost_cells:
+                self.elab_fail('set-at: %s is not a ghost of this function' % g, c)
+                continue
+            cid, sort = self.ghost_cells[g]
+            try:
+                env = self.make_env(ctx, st, ctx.get('block'))
+                from .cparse import parse_expr
+                v, _ = self.eval(parse_expr(val), env)
+                if idx is not None:
+                    i = self.eval_int(parse_expr(idx), env)
+                    v = T.store(st.cells[cid], i, v)
+                self.store(st, PtrV('cell', cid), v)
+            except (Unsupported, ParseError) as e:
+                self.elab_fail('set-at %r: %s' % (anchor, e), c)
 
     def exec_instr(self, ctx, ins, st):
         op = ins['op']
